@@ -220,7 +220,11 @@ def history_cases(chk, rng):
     def ip():
         return Profile.round(radius=10e-3, temperature=1273.15, strain=0, material="steel", length=1, t=0, marks=())
     # (a)
-    for trial in range(6 if not chk.thorough else 40):
+    class Boom(Proc):
+        def solve(self, in_profile):
+            calls.append(self.pid)
+            raise RuntimeError("injected fault in a processor")
+    for trial in range(8 if not chk.thorough else 60):
         Base = type("HB", (Transport,), {})
         Sub = type("HS", (Base,), {})
         plans = []          # per factory: where registered, pre/post, list of answers per solve
@@ -228,22 +232,25 @@ def history_cases(chk, rng):
         for fid in range(rng.randint(2, 5)):
             kind = rng.choice(['pre', 'pre', 'post'])
             owner = rng.choice([Base, Sub])
-            answers = [rng.choice([None, 100 + 10 * fid + k, 100 + 10 * fid]) for k in range(nsolves)]
+            # an answer: nothing, a processor, or (never in the last solve) a processor that raises - the next solve must run every registration again
+            answers = [rng.choice([None, 100 + 10 * fid + k, 100 + 10 * fid] + ([-(100 + 10 * fid + k)] if k < nsolves - 1 and trial % 2 else []))
+                       for k in range(nsolves)]
             state = {'k': -1}
 
             def make(answers=answers, state=state):
                 def factory(unit):
                     a = answers[state['k']]
-                    return None if a is None else (EmptyLine(a) if a % 10 == 1 else Proc(a))
+                    return None if a is None else Boom(-a) if a < 0 else (EmptyLine(a) if a % 10 == 1 else Proc(a))
                 return factory
             (owner.pre_processors if kind == 'pre' else owner.post_processors).append(make())
             plans.append((kind, owner, answers, state))
-        u = Sub(label="u", duration=1)
+        # ... also units that stop at their iteration limit (Config / max_iteration_count lowered): the warning is the only difference
+        limit = rng.choice([None, None, 1, 2])
+        u = Sub(label="u", duration=1, **({'max_iteration_count': limit} if limit else {}))
         for k in range(nsolves):
             for _, _, _, st in plans:
                 st['k'] = k
             calls.clear()
-            ret = u.solve(ip())
             chk.cov['evaluations'] += 1
 
             def expect(kind):
@@ -251,14 +258,25 @@ def history_cases(chk, rng):
                 for cls in (Base, Sub):
                     out += [a[k] for kd, ow, a, _ in plans if kd == kind and ow is cls and a[k] is not None]
                 return out
-            want = expect('pre') + expect('post')
-            data = {'solve': k + 1, 'plans': [(kd, ow.__name__, a) for kd, ow, a, _ in plans]}
+            full = expect('pre') + expect('post')
+            fault = next((i for i, a in enumerate(full) if a < 0), None)
+            want = [abs(a) for a in (full if fault is None else full[:fault + 1])]
+            data = {'solve': k + 1, 'plans': [(kd, ow.__name__, a) for kd, ow, a, _ in plans], 'max_iteration_count': limit}
+            try:
+                ret = u.solve(ip())
+                raised = None
+            except Exception as e:      # noqa
+                ret, raised = None, e
+            if (raised is None) != (fault is None):
+                return chk.fail('processor-history', f"solve {k + 1} of the same unit object (iteration limit {limit}): "
+                                f"{'raised ' + type(raised).__name__ if raised else 'did not raise'}, this solve's factories answer {full} (negative = a processor that raises)", data)
             if list(calls) != want:
-                return chk.fail('processor-history', f"solve {k + 1} of the same unit object: processors run {list(calls)}, this solve's factories answer "
-                                f"{want} (pre then post, base class before subclass, registration order; a factory answering nothing is skipped)", data)
-            if list(u.in_profile.marks) != expect('pre') or list(u.out_profile.marks) != expect('pre') or list(ret.marks) != want:
-                return chk.fail('processor-history', f"solve {k + 1}: marks in={list(u.in_profile.marks)} out={list(u.out_profile.marks)} returned={list(ret.marks)}, "
-                                f"expected in=out={expect('pre')}, returned={want}", data)
+                return chk.fail('processor-history', f"solve {k + 1} of the same unit object (iteration limit {limit}): processors run {list(calls)}, this solve's factories answer "
+                                f"{want} (pre then post, base class before subclass, registration order; a factory answering nothing is skipped; negative answers of "
+                                f"earlier solves were processors that raised)", data)
+            if raised is None and (list(u.in_profile.marks) != expect('pre') or list(u.out_profile.marks) != expect('pre') or list(ret.marks) != want):
+                return chk.fail('processor-history', f"solve {k + 1} (iteration limit {limit}): marks in={list(u.in_profile.marks)} out={list(u.out_profile.marks)} "
+                                f"returned={list(ret.marks)}, expected in=out={expect('pre')}, returned={want}", data)
     # (b)
     for where in ('base', 'own', 'none'):
         Base = type("IB", (Transport,), {})
